@@ -991,8 +991,8 @@ fn big_clear_case(coll: &str, n: usize, order: &str, hint: usize, rng: &mut Rng,
             if judge_slots {
                 let s = $snap;
                 snap::check_slots(&s).map_err(|e| Fail::new("slots-clear", format!("n={} cycle {}: after clear: {}", n, $cycle, e.chars().take(200).collect::<String>())))?;
-                if s.root != i_tree::EMPTY_REF || s.free.len() != s.slots.len() - 1 {
-                    return Err(Fail::new("slots-clear", format!("n={} cycle {}: after clear: root {} and {} of {} slots free", n, $cycle, s.root as i32, s.free.len(), s.slots.len() - 1)));
+                if s.root != i_tree::EMPTY_REF || s.free.len() != s.slots.len().saturating_sub(1) {
+                    return Err(Fail::new("slots-clear", format!("n={} cycle {}: after clear: root {} and {} of {} slots free", n, $cycle, s.root as i32, s.free.len(), s.slots.len().saturating_sub(1))));
                 }
                 let bound = snap::slots_bound(n, hint);
                 rep.counters.max("max_buffer_len_seen", s.slots.len() as u64);
